@@ -483,6 +483,17 @@ class Certs:
     pass
 
 
+def ir_tag(nm, loc):
+    """idiom tag (callgraph.GUARD_IDIOMS / cgstack.CLASS_OF_TAG) of a guard recognised from the IR alone, by its counter"""
+    s = loc_str(loc)
+    for pre, tag in (("janet_vm.", "vm-stackn"), ("struct.JanetCompiler.", "compile-recursion-guard"), ("@depth", "gc-depth"),
+                     ("struct.PegState.", "peg-down1"), ("struct.Builder.", "peg-builder-depth"), ("struct.pretty.", "pp-depth"),
+                     ("struct.JanetAssembler.", "depth-param")):
+        if s.startswith(pre):
+            return tag
+    return "marsh-stackcheck" if "marshal" in nm else "depth-param"
+
+
 def extract(build, g):
     """g: callgraph.Graph of the same tree -> Certs(.certs list of dict, .uncertified [(fn, reason)], .exempt [...])"""
     irp = cgm.emit_ir(build)
@@ -542,6 +553,34 @@ def extract(build, g):
             out.certs.append(cert)
         else:
             out.uncertified.append((nm, "; ".join(tried[-4:]) or "no conditional branch on a compare of a counter location with a constant"))
+    # (1b) functions on a cycle that the source idioms did NOT propose (a harmless respelling of the test defeats a regex)
+    # are accepted from the IR alone under a strict rule: a count-up compare `counter >= / > JANET_RECURSION_GUARD` of a
+    # charged location, or a compare of a MEMORY location that a proposed, certified guard already uses as its counter
+    out.ir_proposed = {}
+    L = g.limits["JANET_RECURSION_GUARD"]
+    for nm in g.nodes:
+        if nm in g.guard or nm in proposals or nm not in fl or nm in getattr(g, "denied", ()):
+            continue
+        fn = P(nm)
+        scc = set(g.comps[g.comp_of[nm]])
+        callees = set(b for b in succ_of.get(nm, ()) if b in scc)
+        tg = target_blocks(fn, callees, by_sig)
+        if not tg:
+            continue
+        cands = find_checks(fn, _is_loc)
+        by_sig_scc = {s: [x for x in v if x in callees] for s, v in by_sig.items()}
+        for loc in dict.fromkeys(c["loc"] for c in cands):
+            mine = [c for c in cands if c["loc"] == loc]
+            strict = all(c["pred"] in ("sge", "sgt", "uge", "ugt") and c["k"] == L for c in mine) or (loc[0] != "param" and loc in counter_locs)
+            if not strict:
+                continue
+            ch = charges(fn, loc, scc, by_sig_scc)
+            if not ch:
+                continue
+            cert = _mk(fn, "counter", mine, tg, [], ch, stop_blocks(fn, set(nr)))
+            if cert:
+                out.ir_proposed[nm] = ir_tag(nm, loc)
+                break
     # (2) checker helpers: the counter compared must be one that a certified guard charges; "may return ok" is the target
     helper_ok = {}
     for h in CHECKERS:
